@@ -164,6 +164,29 @@ def r1_table(rep, ctx):
                 return bool(v_)
         return None
 
+    def is_flag(te_, kind):
+        al = alternatives(te_)
+        return any(x[0] == "param" and x[2] == "is_%s_exclusive" % kind for x in al) and all((x[0] == "param" and x[2] == "is_%s_exclusive" % kind) or (x[0] == "attr" and x[2] == "is_%s_exclusive" % kind) for x in al)
+
+    def test_key(nid):
+        """tests that evaluate the same term have the same outcome along one path (`if A and E: ... elif A: ...`)"""
+        t_ = ares.term(acfg.ast[nid])
+        if t_[0] == "op" and t_[1] in ("cmp:IsNot", "cmp:NotEq", "cmp:NotIn"):
+            return (("t", ("op", {"cmp:IsNot": "cmp:Is", "cmp:NotEq": "cmp:Eq", "cmp:NotIn": "cmp:In"}[t_[1]], t_[2])), True)
+        return (("t", t_), False)
+
+    _states = {}
+
+    def excl_by_paths(node, kind):
+        """the value of is_<kind>_exclusive on every consistent path to the node, else None"""
+        if not _states:
+            _states.update(acfg.consistent_states(test_key))
+        vals = set()
+        for asg in _states.get(node, ()):
+            got = [v_ for (k_, v_) in asg if k_[0] == "t" and is_flag(k_[1], kind)]
+            vals.add(got[0] if got else None)
+        return vals.pop() if len(vals) == 1 and None not in vals else None
+
     for a in own_nodes(ac.node):
         if not isinstance(a, ast.Assert):
             continue
@@ -189,6 +212,8 @@ def r1_table(rep, ctx):
             op = TOPS[opk]
             kind = _limit_kind(r_)
             excl = excl_of(facts_, kind) if kind else None
+            if kind and excl is None:
+                excl = excl_by_paths(acfg.node_of(a), kind)
             key = "AddCategory:%s" % norm(ast.unparse(a.test)) + ("" if len(cases) == 1 else ":" + op)
             if kind is None or excl is None:
                 rep.bad("C12.R1", key, "assertion on the default value is not inside an arm of an exclusivity flag / does not compare with a limit", node=a, fn=ac)
